@@ -175,6 +175,8 @@ LIFT_FILES = {
     "src/runes.rs": "lift/runes.rs",
     "src/index/entry.rs": "lift/index/entry.rs",
     "src/index/lot.rs": "lift/index/lot.rs",
+    "src/index/event.rs": "lift/index/event.rs",
+    "src/into_usize.rs": "lift/into_usize.rs",
     "src/index/utxo_entry.rs": "lift/index/utxo_entry.rs",
     "src/inscriptions/inscription_id.rs": "lift/inscriptions/inscription_id.rs",
 }
@@ -247,6 +249,14 @@ def extract_fn(text, name):
 
 
 # (repo file, function name) -> generated file inside build/liftk/src with the impl wrapper
+LIFT_EXTRACTS_MULTI = {
+    # generated file -> (repo file, [function names], wrapper with one %s for the bodies)
+    "lift/index/balance_extract.rs": ("src/index.rs", ["encode_rune_balance"],
+                                      "// GENERATED at run time: Index::encode_rune_balance copied from /repo/src/index.rs\nuse super::*;\n\nimpl Index {\n%s\n}\n"),
+    "lift/index/rune_updater_extract.rs": ("src/index/updater/rune_updater.rs", ["index_runes"],
+                                           "// GENERATED at run time: RuneUpdater::index_runes copied from /repo/src/index/updater/rune_updater.rs\n// `Runestone` is bound to the shim below: decipher is a stated stub here (C25 decides the real one)\nuse super::*;\nuse super::rune_shim::Runestone;\n\nimpl RuneUpdater<'_> {\n%s\n}\n\n#[cfg(test)]\nmod runes_replay;\n"),
+}
+
 LIFT_EXTRACTS = {
     "lift/index/updater_extract.rs": ("src/index/updater.rs", "index_transaction_sats",
                                       "// GENERATED at run time: the text of Updater::%s copied from /repo/%s\nuse super::*;\n\nimpl Updater<'_> {\n%s\n}\n\n#[cfg(test)]\nmod fifo_replay;\n"),
@@ -277,6 +287,11 @@ def gen_lift():
     for to, (rp, fname, tmpl) in LIFT_EXTRACTS.items():
         body = extract_fn(open(os.path.join(C.REPO, rp)).read(), fname)
         _write_if_changed(os.path.join(dst, "src", to), tmpl % (fname, rp, body))
+        keep.add(os.path.join(dst, "src", to))
+    for to, (rp, fnames, tmpl) in LIFT_EXTRACTS_MULTI.items():
+        text = open(os.path.join(C.REPO, rp)).read()
+        body = "\n\n".join(extract_fn(text, fn) for fn in fnames)
+        _write_if_changed(os.path.join(dst, "src", to), tmpl % body)
         keep.add(os.path.join(dst, "src", to))
     for root, dirs, files in os.walk(os.path.join(dst, "src")):
         for fn in files:
